@@ -274,13 +274,17 @@ PROPS["C02"] = {
     "coq": ["Properties/C02.v", "Corr/Rtcorr.v"],
     "trusted": RT_TRUSTED,
     "assumptions": ["which Go field the documented naming rule assigns to a response key is decided by the oracle (judge.go: tag or premarshal tag of a field in the struct or any embedded struct); the theorems speak about the field the key RESOLVES to in the decoder"],
-    "level_text": "Theorems: a decoded abstract value holds the struct generated for the response's __typename (same object decoded as that struct); in encoding/json's struct loop the value under a key is decoded into the field the key resolves to and is what that field holds at the end unless a later key resolves to the same field, unknown keys are ignored; nulls give nil pointer / nil slice / untouched interface, scalar and struct; and the statement's 'nulls become nil slices' is REFUTED for lists of abstract or custom-unmarshaled values (make([]T, 0): known finding). Success on every conformant response, readability in embedded fragment structs and getters are decided by decoding reference-executor responses with the compiled generated code of random programs (oracle) and comparing every dump with the model in-kernel.",
-    "level_note": "partial: 'decoding a conformant response succeeds and every key is readable in every embedded fragment struct' is oracle-decided per run, not a theorem; two open findings (null list -> empty slice; keys differing only by case).",
+    "level_text": "Theorems: a decoded abstract value holds the struct generated for the response's __typename (same object decoded as that struct); in encoding/json's struct loop the value under a key is decoded into the field the key resolves to and is what that field holds at the end unless a later key resolves to the same field, unknown keys are ignored; nulls give nil pointer / nil slice / untouched interface, scalar and struct; and the statement's 'nulls become nil slices' is REFUTED for lists of abstract or custom-unmarshaled values (make([]T, 0): known finding). Success is characterised exactly: a JSON value decodes iff it conforms to the Go type (shape, every duplicate key, embedded fragments, special-field captures, __typename naming an implementation), everything else is an error (never a panic or divergence), and the executable form of conformance is what the per-response correspondence compares. That the responses of a spec-conformant SERVER conform, readability in embedded fragment structs and getters are decided by decoding reference-executor responses with the compiled generated code of random programs (oracle) and comparing every dump with the model in-kernel.",
+    "level_note": "partial: that the converter's type map for an accepted operation makes every response of the GraphQL execution algorithm CONFORM (in the sense of the success theorem), and that every key is readable in every embedded fragment struct, is decided per run by the reference executor + reflection oracle, not by a theorem (no Gallina model of CollectFields); two open findings (null list -> empty slice; keys differing only by case).",
     "theorem_status": {"C02_abstract_value_holds_the_struct_for_its_typename": "proved", "C02_value_readable_at_its_field": "proved",
                        "C02_unknown_keys_are_ignored": "proved", "C02_null_rules": "proved",
                        "C02_null_list_becomes_nil_slice_refuted": "refuted part of the statement (witness by vm_compute; known finding)",
                        "C02_null_list_mechanism": "proved", "C02_witness": "proved (non-vacuity)",
-                       "C02_embedded_fragment_gets_the_same_object": "proved", "C02_special_field_filled_from_its_capture": "proved"},
+                       "C02_embedded_fragment_gets_the_same_object": "proved", "C02_special_field_filled_from_its_capture": "proved",
+                       "C02_conformant_responses_decode": "proved (conformance of a JSON value to a Go type -- shape incl. every duplicate key, embedded fragments, special-field captures, __typename dispatch -- is EXACTLY success of the generated decoders)",
+                       "C02_value_iff_conformant_error_otherwise": "proved (acyclic type maps: a value on conformant input, an error on everything else; never a panic or divergence; independent of the value decoded into)",
+                       "C02_conformance_is_checked_per_response": "proved (the executable check equals is_ok of the model decoder at every fuel: the per-response correspondence evaluates it)",
+                       "C02_conformance_witness": "proved (non-vacuity)"},
 }
 
 PROPS["C06"] = {
